@@ -1,0 +1,183 @@
+//go:build verif
+
+package service
+
+import (
+	"net"
+	"sync"
+	"sync/atomic"
+)
+
+// Verification hook points. A harness built with -tags verif can install a
+// function that is called at each of them (to record or steer interleavings).
+const (
+	vpLoaded    = iota + 1 // peer cursor loaded at the start of a call, nothing locked yet
+	vpPreLockC             // about to lock ccond.L
+	vpPreLockP             // about to lock pcond.L
+	vpLockedC              // ccond.L acquired
+	vpLockedP              // pcond.L acquired
+	vpUnlockedC            // ccond.L released
+	vpUnlockedP            // pcond.L released
+	vpPreWaitC             // about to call ccond.Wait (holding ccond.L)
+	vpPreWaitP             // about to call pcond.Wait (holding pcond.L)
+	vpWokeC                // returned from ccond.Wait (holding ccond.L)
+	vpWokeP                // returned from pcond.Wait (holding pcond.L)
+	vpStoredC              // consumer cursor stored
+	vpStoredP              // producer cursor stored
+	vpCopied               // bytes copied, cursor not yet stored
+	vpDone                 // done flag stored by Close
+	vpWritten              // service: request written, not yet registered in the ack queue
+	vpProcessed            // service: processor handled and committed one packet
+)
+
+// Exported copies of the point numbers for the harness.
+const (
+	VerifLoaded    = vpLoaded
+	VerifPreLockC  = vpPreLockC
+	VerifPreLockP  = vpPreLockP
+	VerifLockedC   = vpLockedC
+	VerifLockedP   = vpLockedP
+	VerifUnlockedC = vpUnlockedC
+	VerifUnlockedP = vpUnlockedP
+	VerifPreWaitC  = vpPreWaitC
+	VerifPreWaitP  = vpPreWaitP
+	VerifWokeC     = vpWokeC
+	VerifWokeP     = vpWokeP
+	VerifStoredC   = vpStoredC
+	VerifStoredP   = vpStoredP
+	VerifCopied    = vpCopied
+	VerifDone      = vpDone
+	VerifWritten   = vpWritten
+	VerifProcessed = vpProcessed
+)
+
+type verifHooks struct {
+	point    func(obj interface{}, k int)
+	stopDone func(info VerifServiceInfo)
+}
+
+var verifHook atomic.Value // of *verifHooks
+
+// VerifSetHooks installs (or, with nil arguments, removes) the hook functions.
+func VerifSetHooks(point func(obj interface{}, k int), stopDone func(info VerifServiceInfo)) {
+	verifHook.Store(&verifHooks{point: point, stopDone: stopDone})
+}
+
+func vpoint(obj interface{}, k int) {
+	if h, _ := verifHook.Load().(*verifHooks); h != nil && h.point != nil {
+		h.point(obj, k)
+	}
+}
+
+// VerifServiceInfo identifies a connection's service object.
+type VerifServiceInfo struct {
+	ID       uint64
+	ClientID string
+	Client   bool
+}
+
+func verifInfo(svc *service) VerifServiceInfo {
+	info := VerifServiceInfo{ID: svc.id, Client: svc.client}
+	if svc.sess != nil && svc.sess.Cmsg != nil {
+		info.ClientID = string(svc.sess.Cmsg.ClientID())
+	}
+	return info
+}
+
+// VerifInfoOf returns the identification of a service passed to a hook point.
+func VerifInfoOf(obj interface{}) (VerifServiceInfo, bool) {
+	if svc, ok := obj.(*service); ok {
+		return verifInfo(svc), true
+	}
+	return VerifServiceInfo{}, false
+}
+
+func verifStopDone(svc *service) {
+	if h, _ := verifHook.Load().(*verifHooks); h != nil && h.stopDone != nil {
+		h.stopDone(verifInfo(svc))
+	}
+}
+
+// VerifServe runs the normal server-side connection handling (configuration
+// check and handleConnection) on a caller-supplied connection.
+func (svr *Server) VerifServe(conn net.Conn) error {
+	if err := svr.checkConfiguration(); err != nil {
+		return err
+	}
+	_, err := svr.handleConnection(conn)
+	return err
+}
+
+// VerifBuffer exposes the unexported ring buffer.
+type VerifBuffer struct {
+	B *buffer
+}
+
+// VerifNewBuffer creates a ring buffer through newBuffer.
+func VerifNewBuffer(size int64) (*VerifBuffer, error) {
+	b, err := newBuffer(size)
+	if err != nil {
+		return nil, err
+	}
+	return &VerifBuffer{B: b}, nil
+}
+
+// VerifNewSmallBuffer creates a ring buffer of exactly size bytes (a power of
+// two), bypassing the minimum size of newBuffer so that wrap-around is frequent.
+func VerifNewSmallBuffer(size int64) *VerifBuffer {
+	if !powerOfTwo64(size) {
+		panic("size must be a power of two")
+	}
+	return &VerifBuffer{B: &buffer{
+		id:    atomic.AddInt64(&bufcnt, 1),
+		buf:   make([]byte, size),
+		size:  size,
+		mask:  size - 1,
+		pseq:  newSequence(),
+		cseq:  newSequence(),
+		pcond: sync.NewCond(new(sync.Mutex)),
+		ccond: sync.NewCond(new(sync.Mutex)),
+	}}
+}
+
+// Is reports whether obj (as passed to a hook point) is this buffer.
+func (vb *VerifBuffer) Is(obj interface{}) bool {
+	b, ok := obj.(*buffer)
+	return ok && b == vb.B
+}
+
+// Probe returns the cursors, the producer's cached gate, the done flag and
+// whether the two internal mutexes are free.
+func (vb *VerifBuffer) Probe() (pseq, cseq, gate int64, done bool, pfree, cfree bool) {
+	b := vb.B
+	pseq, cseq = b.pseq.get(), b.cseq.get()
+	gate = atomic.LoadInt64(&b.pseq.gate)
+	done = b.isDone()
+	if pfree = b.pcond.L.(*sync.Mutex).TryLock(); pfree {
+		b.pcond.L.Unlock()
+	}
+	if cfree = b.ccond.L.(*sync.Mutex).TryLock(); cfree {
+		b.ccond.L.Unlock()
+	}
+	return
+}
+
+// Size returns the ring size.
+func (vb *VerifBuffer) Size() int64 { return vb.B.size }
+
+// VerifWriteMessagePath mirrors the two write paths of service.writeMessage on
+// a bare buffer: reserve l bytes, and either fill the window in place and
+// commit, or (wrap) write the bytes through Write.
+func (vb *VerifBuffer) VerifWriteMessagePath(p []byte) (int, bool, error) {
+	buf, wrap, err := vb.B.WriteWait(len(p))
+	if err != nil {
+		return 0, wrap, err
+	}
+	if wrap {
+		n, err := vb.B.Write(p)
+		return n, wrap, err
+	}
+	copy(buf, p)
+	n, err := vb.B.WriteCommit(len(p))
+	return n, wrap, err
+}
